@@ -20,15 +20,15 @@ CLAIMED.update({
  "C05": dict(
    engine="storage-fault-injector",
    category="fault_enumeration",
-   technique="fault injection on stored module bytes (13 enumerated structure-aware fault kinds, nest bombs, unstructured bytes, file-delivery faults) plus resource faults (2 MiB stack, 8 GiB address space, watchdog) in crash-isolated workers; differential verdict oracle against the stand-alone wasmparser validator under both feature configurations",
-   text="The fault kinds are enumerated, their placements sampled from a seeded PRNG with every offset resolved in the case file. Each case is parsed under default and only_stable_features on a default-size thread stack; panic, signal and timeout are attributed to the single input by the driver. Soundness, completeness and the stable-feature gate are equalities with an independent validator and with generator-side knowledge of which proposal a module needs.",
+   technique="fault injection on stored module bytes (20 enumerated structure-aware fault kinds incl. framing-preserving count inflation, empty-section and data-count faults, encodings of later proposals; nest bombs; valid modules large in one dimension; unstructured bytes; file-delivery faults) plus resource faults (2 MiB stack, 8 GiB address space, no-progress watchdog) in crash-isolated workers; differential verdict oracle against the stand-alone wasmparser validator under both feature configurations",
+   text="The fault kinds are enumerated, their placements sampled from a seeded PRNG with every offset resolved in the case file. Each case is parsed under default and only_stable_features on a default-size thread stack; panic, signal and hang (no progress for 400 s, confirmed by a solo replay) are attributed to the single input by the driver and replay under the same limits. Soundness, completeness and the stable-feature gate are equalities with an independent validator and with generator-side knowledge of which proposal a module needs.",
    note="Trusted: wasmparser 0.214's Validator as the definition of validity; the harness's own feature constants; wasm-encoder/wat for victims. Sampling, not coverage-guided; messages are never compared.",
    design_ref="DESIGN.md sections 2.4, 4 (C05)"),
  "C08": dict(
    engine="lifecycle-simulator",
    category="exploration",
-   technique="deterministic simulation of ambient nondeterminism: seeded hash entropy (getrandom seam), id-arena global-counter offsets, heap padding, process boundary and (a third of runs) simulated rayon schedules, over seeded emit/file-emit-with-I/O-fault/query/re-parse histories; byte-equality oracle against a pristine-process reference",
-   text="Every emit of every history must equal the bytes a pristine process produced for the same input and configuration: across processes, entropy, arena-counter offsets, addresses and schedules; repeated emits on one value; files written; and parse(E).emit()==E for walrus's own output E.",
+   technique="deterministic simulation of ambient nondeterminism: seeded hash entropy (getrandom seam), id-arena global-counter offsets, heap padding, process boundary and (a third of runs) simulated rayon schedules, over seeded emit/file-emit-with-I/O-fault/query/gc/edit/re-parse histories; byte-equality oracles: against a pristine-process reference, against the previous emit of the unmutated value, against the bytes a value was re-parsed from, and against the emit of the same mutations made without any emit or query in between; failures that need an earlier module in the same process replay with their process history",
+   text="Every emit of every history must equal the bytes a pristine process produced for the same input and configuration: across processes, entropy, arena-counter offsets, addresses and schedules; repeated emits on one value; files written; parse(E).emit()==E for walrus's own output E (also after gc and edits); emit; edit; emit == edit; emit.",
    note="Trusted: the entropy seam (checked live by a canary map each run batch); one machine / toolchain / target. DWARF only where it must be a no-op or on synthesised well-formed input.",
    design_ref="DESIGN.md sections 2.3, 4 (C08)"),
  "C12": dict(
@@ -41,22 +41,22 @@ CLAIMED.update({
  "C02": dict(
    engine="lifecycle-simulator",
    category="exploration",
-   technique="deterministic simulation of operation histories on one Module value (GC, re-parse, 21 kinds of well-formed builder/edit API calls, custom-section adds) under a configuration swarm; oracle: emit returns without unwinding and an independent wasmparser validator accepts the bytes after every emit of every history",
+   technique="deterministic simulation of operation histories on one Module value (GC, re-parse, 26 kinds of well-formed builder/edit API calls incl. edits through block_mut / VisitorMut passes, imports added after local items, custom sections with GC roots) under a configuration swarm; oracle: emit returns without unwinding and an independent wasmparser validator accepts the bytes after every emit of every history",
    text="The history x configuration dimension of the property only (the thinnest fit of the family): a Module carries tombstones, back-links and id maps from everything done to it, and the emit-time index map panics on any id a history left dangling. Seeded histories, minimised to the shortest operation list that still fails; nothing beyond validity is asserted.",
    note="Trusted: wasmparser 0.214 Validator under the harness's feature constants; the edit vocabulary is contract-preserving by construction (export names unique, ref.func targets declared, back-links maintained).",
    design_ref="DESIGN.md section 4 (C02)"),
  "C14": dict(
    engine="lifecycle-simulator",
    category="exploration",
-   technique="configuration-swarm simulation: all 512 switch vectors exhaustively on fixed inputs plus seeded (input, vector, round-trip chain, injected parse failure) cases; metamorphic section-inventory equalities between switch-on and switch-off executions, a producers reference model read with an independent decoder, and an exactly-once callback counter under injected parse faults",
-   text="Per hop three executions of real parse+emit (the vector, names flipped, producers flipped) compared section by section with an independent splitter; producers content against a list model across chains of up to six round trips; on_parse counted as 1 after Ok and 0 after Err where Err is produced by the C05 storage-fault injector or by only_stable_features.",
+   technique="configuration-swarm simulation: all 512 switch vectors exhaustively on fixed inputs plus seeded (input, vector, round-trip chain, injected parse failure) cases; metamorphic equalities between switch-on and switch-off executions (name / producers switches remove exactly their section; the synthetic-names switch only names anonymous items; switches without a documented output effect leave the bytes alone), a producers reference model read with an independent decoder, and an exactly-once callback counter under injected parse faults incl. failures only the validator's end() reports",
+   text="Per hop up to eight executions of real parse+emit (the vector; names, producers, synthetic names, strict, code-transform, on_instr_loc, only-stable flipped) compared section by section with an independent splitter and wasmparser's name-section reader; producers content against a list model across chains of up to six round trips; on_parse counted as 1 after Ok and 0 after Err where Err is produced by the C05 storage-fault injector or by only_stable_features.",
    note="Trusted: section splitter; wasmparser::ProducersSectionReader. DWARF: absence with the switch off; presence only for synthesised well-formed DWARF.",
    design_ref="DESIGN.md section 4 (C14)"),
  "C17": dict(
    engine="lifecycle-simulator",
    category="exploration",
    technique="refinement checking of operation histories against a map/vector reference model: exhaustive enumeration of all sequences up to length 5 over a 9-operation alphabet, then seeded histories of up to 60 operations over 11 collections of up to 3 modules, with use-of-a-dead-id as the injected fault; invariants evaluated after every step",
-   text="Live id resolves to its own item; dead id is refused (panic or None) and the refusal changes nothing; fresh ids differ from every id ever issued (also under arena-counter burn); iteration is the live items in creation order; adding a present function type returns the existing id; finders agree with the model.",
+   text="Live id resolves to its own item; dead id is refused (panic or None) and the refusal changes nothing; fresh ids differ from every id ever issued (also under arena-counter burn); iteration is the live items in creation order; adding a present function type returns the existing id; finders (by name, by item, by type, 'the only one' helpers, function imports, typed custom sections) agree with the model; ids of another module are refused.",
    note="Single-threaded by nature (the API is &mut-owned). Identity is observed through a unique fingerprint stored in each item.",
    design_ref="DESIGN.md section 4 (C17)"),
 })
